@@ -4,3 +4,6 @@ From Indi Require Import Base.Sx Msg.Registry Msg.RegOk Generated.RegistryData.
 
 Lemma live_ok_c20 : reg_ok_c20 live_registry = true.
 Proof. vm_compute. reflexivity. Qed.
+
+Lemma live_ok_router : reg_ok_router live_registry = true.
+Proof. vm_compute. reflexivity. Qed.
